@@ -53,6 +53,18 @@ theorem gexpr_len {regs : Regs} {c : List Tok} {e : AST} (h : GExpr regs c e) : 
   | bin h => exact gbin_len h
   | tern h _ _ => simp; omega
 
+theorem parsePostfix_noFault (regs : Regs) (lim : Nat) : ∀ (toks : List Tok) (lhs : AST) (h : Nat),
+    (parsePostfix regs lim lhs h toks).NoFault
+  | [], _, _ => by simp only [parsePostfix]; exact NoFault.ok _
+  | t :: r, lhs, h => by
+    cases t with
+    | op o =>
+      simp only [parsePostfix]
+      split
+      · exact NoFault.bind_of (node_noFault _ _) fun h' _ => parsePostfix_noFault regs lim r _ h'
+      · exact NoFault.ok _
+    | _ => simp only [parsePostfix]; exact NoFault.ok _
+
 structure Total (regs : Regs) (lim fuel : Nat) : Prop where
   tok : ∀ d toks, 4 * toks.length + 5 ≤ fuel → (parseToken regs lim fuel d toks).NoFault
   prim : ∀ d toks, 4 * toks.length + 6 ≤ fuel → (parsePrimary regs lim fuel d toks).NoFault
@@ -123,12 +135,7 @@ theorem tstep_prim (d : Nat) (toks : List Tok) (hf : 4 * toks.length + 6 ≤ fue
     (parsePrimary regs lim (fuel + 1) d toks).NoFault := by
   unfold parsePrimary
   refine NoFault.bind_of (ih.tok d toks (by omega)) fun ⟨lhs, h, r⟩ _ => ?_
-  dsimp only
-  split
-  · split
-    · exact NoFault.bind_of (node_noFault _ _) fun _ _ => NoFault.ok _
-    · exact NoFault.ok _
-  · exact NoFault.ok _
+  exact parsePostfix_noFault regs lim r lhs h
 
 theorem tstep_expr (d : Nat) (toks : List Tok) (hf : 4 * toks.length + 7 ≤ fuel + 1) :
     (parseExpression regs lim (fuel + 1) d toks).NoFault := by
